@@ -430,7 +430,8 @@ def judge(qn, cls, args, kwargs, *, mode="value", scale=1.0, want_repro=True):
         d = {"call": f"{qn}({describe(args, kwargs)})", "function": fn.name, "nodes": len(tracer.nodes)}
         if want_repro:
             d["repro"] = repro_script(qn, args, kwargs)
-        return {"key": key, "what": f"{qn} [{cls}]: {text}; call: {describe(args, kwargs)[:400]}", "detail": d}
+        what = f"{qn} [{cls}]: {text}; call: {describe(args, kwargs)[:400]}".replace("\n", " ")
+        return {"key": key, "what": what, "detail": d}
 
     try:
         model = build_model(inputs, tracer, flat)
@@ -487,6 +488,10 @@ def judge(qn, cls, args, kwargs, *, mode="value", scale=1.0, want_repro=True):
             rdiff = ("value", "reference output not comparable")
         if rdiff is None:
             return {"status": "disputed", "events": ev, "info": f"{qn} [{cls}]: ORT {text}; onnx.reference agrees with torch"}
+        if kind == "shape" and rdiff[0] != kind:
+            # ORT's own shape deviation (its empty-reduction quirk) masks what the graph really gets wrong:
+            # name the violation after the deviation the reference evaluator shows
+            kind, text = rdiff[0], f"{rdiff[1]} [per onnx.reference; ORT: {text[:160]}]"
     return {"status": "violation", "events": ev, "viol": viol(kind, text)}
 
 
